@@ -1095,7 +1095,10 @@ func runC20(e *Env) error {
 		"arguments, interface fields, recursive type) and 15 maps/other kinds, (b) random reflect.StructOf types (1–5 fields, embedded structs/pointers to " +
 		"depth 3, exported/unexported names, nested structs), each as value and as pointer; compared with direct reflection before, during (random order, " +
 		"interleaved probes) and after flooding the process-wide cache with > 1000 (thorough > 5000) distinct (type, name) pairs; the same history is replayed " +
-		"on the Lean model. non-trivial = expected output non-empty; distinct by (object, name, syntax)"
+		"on the Lean model; then (c) chains of 0–14 embedded structs / pointers (index paths up to 15 steps, levels of up to 300 fields, shadowed and ambiguous " +
+		"names, nil pointers at any level; replayed on the model down to 12 levels) and (d) a long history of > 9000 (thorough > 80000) distinct (type, name) " +
+		"pairs that each find a field, with pairs of the recent past, the older past and a hot set read again in between. " +
+		"non-trivial = expected output non-empty; distinct by (object, name, syntax)"
 	c := &c20Run{e: e, g: c20NewEng(), first: map[string]string{}, pairs: map[string]bool{}}
 
 	// 0. regression corpus (pinned-tree defects: promoted fields returned the embedded struct; typed maps)
@@ -1402,6 +1405,11 @@ func runC20(e *Env) error {
 		}
 		for _, o := range zoo {
 			o.vi = -1
+		}
+	}
+	if !r.Full() {
+		if err := c20DeepAndLong(c); err != nil {
+			return err
 		}
 	}
 	c20ReceiverResults(e)
